@@ -21,6 +21,10 @@ def read_sitk_image(path: PathUri) -> Tuple[Tensor, Grid]:
 
 def write_sitk_image(data: Tensor, grid: Grid, path: PathUri, compress: bool = True) -> None:
     r"""Write image file in any format supported by SimpleITK."""
+    if data.ndim == grid.ndim:
+        data = data.unsqueeze(0)
+    if data.ndim != grid.ndim + 1:
+        raise ValueError("write_image() data.ndim must be equal to grid.ndim or grid.ndim + 1")
     origin = grid.origin().tolist()
     spacing = grid.spacing().tolist()
     direction = grid.direction().flatten().tolist()
